@@ -382,6 +382,8 @@ let () =
               hid := "conversions"; opno := 0; header := ""; cur := name; bump_count "conversion_cases";
               if b <> "same" && starts_with name "Q drain_adaptors panicking_drop" then
                 report_spec ~prop:"C16" ~pred:"no_double_drop_when_a_skipped_destructor_panics" ~detail:(String.map (fun c -> if c = ' ' then '_' else c) (name ^ ":" ^ b));
+              if b <> "same" && starts_with name "Q drops_once" then
+                report_spec ~prop:"C15" ~pred:"replaced_elements_dropped_once" ~detail:(String.map (fun c -> if c = ' ' then '_' else c) (name ^ ":" ^ b));
               if b <> "same" && starts_with name "Q drain_adaptors" then
                 report_spec ~prop:"C15" ~pred:"skipped_items_dropped_once" ~detail:(String.map (fun c -> if c = ' ' then '_' else c) (name ^ ":" ^ b));
               if b <> "same" then report_spec ~prop:(if starts_with name "Q box_" then "C17" else "C13") ~pred:"conversions_like_std" ~detail:(String.map (fun c -> if c = ' ' then '_' else c) (name ^ ":" ^ b))
